@@ -169,6 +169,12 @@ class CFG:
             if self.may_raise(c):
                 self._exc_target(n)
                 return
+        # Inside a try-block the author expects the body to be able to raise what the handlers catch
+        # (KeyError from a subscript, AttributeError from an attribute ...): give every non-trivial statement
+        # an edge to the handlers of the *innermost* try only (never outward: no spurious RAISE exits).
+        if self._handlers and any(isinstance(x, (ast.Call, ast.Subscript, ast.Attribute, ast.BinOp)) for x in ast.walk(node)):
+            for h in self._handlers[-1][0]:
+                self._edge(n, h, "exc")
 
     # -------------------------------------------------------------- statements
     def _body(self, body: Iterable[ast.stmt], preds):
